@@ -67,6 +67,7 @@ def run(repo, rep, tier):
     _marker_rule(repo, rep)
     _abnormal_exit_rule(repo, rep)
     _per_name_rule(repo, rep)
+    _restore_vs_global(repo, rep)
     # names bound inside one expression (lambda parameters, comprehension
     # variables) must not change how any other expression's names are
     # looked up: the rewriter's scopes are copies, closed on every exit
@@ -309,7 +310,46 @@ def _norm_test(t):
     return t
 
 
+def _capturable_helpers(repo, rep):
+    """Names that the name rewriter leaves untouched resolve to Python
+    locals of the generated function.  That is safe only for names a
+    template cannot bind: every such name must be rejected by the binders.
+    internals = COMPILER_INTERNALS_OR_DISALLOWED | Compiler.defaults (plus
+    the '__' prefix); the binders reject COMPILER_INTERNALS_OR_DISALLOWED and
+    the '__' prefix."""
+    ci = repo.cls("chameleon.compiler.Compiler")
+    init = ci.methods["__init__"]
+    t = L.text(init.node)
+    rep.check("internals = COMPILER_INTERNALS_OR_DISALLOWED | "
+              "set(self.defaults)" in t, "R05.5", init.qualname,
+              "the untouched names are the disallowed names plus the helper "
+              "names of Compiler.defaults", construct="internals-source",
+              where=L.where(init))
+    dflt = ci.attrs.get("defaults")
+    names = sorted(k.value for k in dflt.keys
+                   if isinstance(k, ast.Constant)) if isinstance(
+                       dflt, ast.Dict) else None
+    if not names:
+        raise AnalysisError("Compiler.defaults vanished")
+    try:
+        rejected = set(repo.const("chameleon.compiler",
+                                  "COMPILER_INTERNALS_OR_DISALLOWED"))
+    except Exception as exc:
+        raise AnalysisError("cannot fold the disallowed names: %s" % exc)
+    for nme in names:
+        rep.check(nme in rejected or nme.startswith("__"), "R05.5",
+                  "chameleon.compiler.Compiler.defaults",
+                  "the helper local '%s' cannot be captured: a template "
+                  "variable of that name is either rejected at compile time "
+                  "or looked up in the template context" % nme,
+                  construct="helper-capturable:" + nme,
+                  detail="tal:define=\"%s 7\" is accepted, but ${%s} is "
+                         "left as the bare Python name and shows the "
+                         "engine's helper" % (nme, nme))
+
+
 def _nametransform_rule(repo, rep):
+    _capturable_helpers(repo, rep)
     f = repo.func("chameleon.compiler.NameTransform.__call__")
     site = f.qualname
     w = L.where(f)
@@ -556,6 +596,27 @@ def _abnormal_exit_rule(repo, rep):
                           where=L.where(m), detail=detail)
     rep.require_min("R05.8", 1, "swallowing handlers around child content "
                                 "(tal:on-error)")
+
+
+def _restore_vs_global(repo, rep):
+    """'global definitions stay visible for the rest of the rendering': the
+    restore of a local definition of the same name, when the enclosing
+    element ends, must not erase a global defined meanwhile.  At the top
+    level the variable scope and the render-wide root are one dictionary, so
+    'del econtext[name]' / 'econtext[name] = backup' is exactly that
+    erasure unless the restore consults rcontext."""
+    f = repo.func(COMP + "_leave_assignment")
+    r = L.emission(repo, f.qualname)
+    v = r.out if getattr(r, "is_gen", False) else r.value
+    consults = any(isinstance(w, A.Frag) and w.tree is not None and any(
+        isinstance(n, ast.Name) and n.id == "rcontext"
+        for n in ast.walk(w.tree)) for w in A.walk(v))
+    rep.check(consults, "R05.3", f.qualname, "the restore of a local "
+              "definition keeps (or re-applies) a global definition of the "
+              "same name made inside the element", construct="restore-"
+              "erases-global", where=L.where(f),
+              detail="<div tal:define=\"x 1\"><i tal:define=\"global x "
+                     "2\"/></div>${x} : x is undefined after the div")
 
 
 def _per_name_rule(repo, rep):
